@@ -140,10 +140,13 @@ def _gen_shard(spec):
     return "".join(s.text() for s in cw.sessions)
 
 
-def generate(env, direction, per_cell, nmsgs):
+TOY_SUITES = [(0x7E57, d, a) for d in (1, 3) for a in (1, 3, 0xFFFF)]
+
+
+def generate(env, direction, per_cell, nmsgs, suites=None):
     items = []
     ix = 0
-    for ids in gen.suites(sealing_only=False):
+    for ids in (suites or gen.suites(sealing_only=False)):
         for mode in gen.MODES:
             for k in range(per_cell):
                 items.append((ix, ids, mode, k))
@@ -328,6 +331,14 @@ def run(env):
     # pairwise covering set of lib/framework.py
     from props.c13 import slice_text
     mtext = slice_text(generate(env, "impl", 1, 4), env.seed % 2, 8 if env.quick() else 2)
+    # a KEM plugged in through the public `Kem` trait whose sizes (96 bytes each) exceed every built-in one's
+    # (harness/src/mockkem.rs; ref/hpke_ref.py ToyKem): the generic code around the KEM must not assume Nsecret <= 64 etc.
+    for direction in ("impl", "ref"):
+        ttext = generate(env, direction, env.pick(2, 12), 4, suites=TOY_SUITES)
+        rt = env.drive("mock-kem-" + direction, ttext)
+        env.require_complete(rt, "mock-kem-" + direction)
+        mrt = env.pmap(monitor, rt.sessions, workload="impl-sender" if direction == "impl" else "ref-sender")
+        env.extra_cov["mock_kem_ops_%s" % direction] = mrt.counts["evaluations"]
     blist = ["mix-noalloc-abort-s-native", "mix-std-abort-z", "cfg-fuzzing"]
     if not env.quick():
         blist += ["opt0", "opt1", "opts", "optz", "native"] + fw.pairwise_builds()
